@@ -8,11 +8,12 @@ A state is the history that reaches it.  ``Exec.run(pool, history)`` replays the
 clean slate (no handle held, gc.collect() done, interpretation stack at its base) while the boring model of
 ``fv.ref.hashcons`` is stepped in lockstep; after every event the invariants listed in ``LEVEL_RULE`` are evaluated
 on the real objects and compared with the model.  States are de-duplicated on the canonical form ``hashcons.canon``.
-The recipe pool (48 recipes) is explored per sub-pool (every recipe alone, every pair of same-kind recipes, in the
+The recipe pool (59 recipes) is explored per sub-pool (every recipe alone, every pair of same-kind recipes, in the
 thorough tier also every same-kind triple): histories over a sub-pool use every event that is relevant to it.
 """
 import copy
 import gc
+import inspect
 import multiprocessing as mp
 import os
 import pickle
@@ -104,6 +105,13 @@ from funsor.interpretations import normalize
 from funsor.interpreter import reinterpret
 from funsor.tensor import Tensor
 from funsor.terms import Binary, Lambda, Number, Reduce, Slice, Stack, Subs, Variable, eager, lazy, reflect
+class _T:  # owner of bound methods / a callable object, for the wrapped ops
+    def ladj(self, x, y): return x
+    def ladj2(self, x, y): return y
+    def fwd(self, x): return x
+    def __call__(self, x): return x
+    def copy(self): return _T()
+def _fq(x, y): return x
 """
 
 
@@ -112,6 +120,8 @@ def initial_array(slot, seed):
         return np.array([0, 1])
     if slot == "s1":
         return lang.generic_fill(71, (2, 2), seed)
+    if slot == "tq":
+        return env().ns["_T"]()
     return lang.generic_fill(72, (2,), seed)
 
 
@@ -350,8 +360,12 @@ class Exec:
             )
             out.append((x, s, expr))
             return s
-        if isinstance(x, np.ndarray):
+        if isinstance(x, (np.ndarray, e.ns["_T"])):
             return self.arr_key(x)
+        if inspect.ismethod(x):
+            return ("method", self.walk(x.__self__, None, []), x.__func__.__name__)
+        if inspect.isfunction(x):
+            return ("fn", x.__name__)
         if isinstance(x, (str, int, float, bool, type(None))):
             return x
         if isinstance(x, tuple):
@@ -687,7 +701,8 @@ class Exec:
         h = self.held[r]
         key = self.ms.status[r][1]
         rec = H.RECIPES[r]
-        must_be_identical = kind in ("cp", "ri") or not H.has_arrays(key)
+        # Op.__deepcopy__ returns self by design, whatever the op wraps
+        must_be_identical = kind in ("cp", "ri") or not H.has_arrays(key) or (rec.kind == "op" and kind == "dc")
         code = {
             "cp": "copy.copy(h_%s)",
             "pk": "pickle.loads(pickle.dumps(h_%s))",
@@ -840,6 +855,9 @@ def snippet(seed, hist, viol):
     """A stand-alone program replaying ``hist`` with the failing assertion placed after event ``viol.at``."""
     L = [_PRELUDE.rstrip(), "gc.collect(); gc.disable()"]
     for s in H.SLOTS:
+        if s == "tq":
+            L.append("tq = _T()")
+            continue
         a = initial_array(s, seed)
         L.append("%s = np.array(%r)" % (s, a.tolist()))
     table = viol.extra.get("table")
@@ -902,7 +920,7 @@ def snippet(seed, hist, viol):
         L.append("if _amb is not None: _amb.__exit__(None, None, None)")
         for r in sorted(held):
             L.append("del h_%s" % r)
-        L.append("del s0, s1, s2")
+        L.append("del s0, s1, s2, tq")
         L.append("while gc.collect(): pass")
         emit_asserts()
     L.append('print("not reproduced")')
@@ -1048,7 +1066,8 @@ _CROSSCHECK_PAIRS = [
     ("t2r", "binTT"), ("red", "lam"), ("red", "ctr"), ("bin", "subs"), ("bin", "stack"), ("var", "bin"),
     ("var7", "dB7"), ("dB7", "dProd"), ("dR5", "dProd"), ("dProd", "dProd2"), ("dB75", "dR5"), ("dR5", "dR57"), ("dR5", "dR7"), ("lam", "dR5"),
     ("oS0", "oS1"), ("oSl", "oSl2"), ("oSl", "oSl3"), ("oSlA1", "oSlA2"), ("oSlB1", "oSlB2"), ("oSlC1", "oSlC2"), ("oSf1", "oSf2"),
-    ("oRs", "oRs3"), ("tN1", "tN2"),
+    ("oRs", "oRs3"), ("oSlD1", "oSlD2"), ("oSlE1", "oSlE2"), ("oSlB1", "oSlF2"), ("oW1", "oW2"), ("oW4", "oW5"), ("oW4", "oW6"),
+    ("tN1", "tN2"),
 ]
 
 
